@@ -39,6 +39,16 @@ func (d *DID) GenEvents(o GenOpts) []Event {
 		n += r.Intn(o.MaxLen - o.MinLen + 1)
 	}
 	evs := []Event{{Op: d.Create, Legit: true, Label: "create"}}
+	if o.DupCreates && r.Intn(6) == 0 {
+		// the FIRST anchored create carries a delta that cannot be used (other delta than the one hashed / no delta): the DID
+		// is created with an empty document and no update commitment, and the same create with its proper delta anchored
+		// LATER changes nothing
+		sp := d.Create.Spec
+		sp.Tamper = []Tamper{TSwapDelta, TNoDelta}[r.Intn(2)]
+		sp.Label = "C.first-unusable-delta"
+		evs = []Event{{Op: Build(sp), Legit: true, Label: "create:unusable-delta"}, {Op: d.Create, Label: "dupcreate:proper-delta-later"}}
+		d.CurUpd = nil
+	}
 	var past []*Op
 	forgeN := 0
 	for i := 0; i < n && d.Remaining() > 3; i++ {
